@@ -711,6 +711,7 @@ class Scenario:
         self.now = 1000.0
         self.aborted = False
         self.sample = None
+        self.reported = collections.Counter()
 
     def make(self):
         from aioquic.quic.configuration import QuicConfiguration
@@ -744,6 +745,10 @@ class Scenario:
         res = self.known.filter((what, sig), case)
         if res:
             self.stats["violations"] += 1
+            key = (sig.get("site"), sig.get("rule"), sig.get("exception"))
+            self.reported[key] += 1
+            if self.reported[key] > 2:      # one replay file per kind of failure and scenario is enough
+                return
             self.ctx.violation("impl-violation", "connection[%s]: %s" % (self.name, what), case, signature=sig)
 
     def case_of(self, x, direction, ptype, idx, pos, mask, raw):
@@ -939,25 +944,29 @@ class Scenario:
         return ok
 
     def puppet(self):
-        """A packet protected by the independent implementation with the client's keys is accepted."""
+        """Packets protected by the independent implementation with the client's keys are accepted: a 4-byte
+        encoding, then 1- and 2-byte encodings exactly at the upper edge of the decoding window
+        (pn = expected + 2^(bits-1), expected = largest received + 1)."""
         if "c>s" not in self.obs.k1:
             return
         keys, phase = self.obs.k1["c>s"]
         s = self.server
-        s.drain(self.now)
-        pn = self.obs.largest[("c>s", "app")] + 1 + self.rng.randrange(1, 200)
-        dcid = s.conn.host_cid
-        first = 0x40 | (phase << 2) | 3
-        hdr = bytes([first]) + dcid + (pn & 0xFFFFFFFF).to_bytes(4, "big")
-        pkt = R.protect(keys, hdr, b"\x01" + bytes(self.rng.randrange(3, 40)), pn)
-        before = s.n_received()
-        s.conn.receive_datagram(pkt, CLIENT_ADDR, now=self.now)
-        self.stats["reference_protected_fed"] += 1
         sp = [sp for ep, sp in s.conn._spaces.items() if ep.name == "ONE_RTT"][0]
-        if s.n_received() != before + 1 or sp.largest_received_packet != pn:
-            self.violation("a packet protected by the independent implementation (pn %d, 4-byte encoding) is not accepted" % pn,
-                           {"site": "receive_datagram", "rule": "reference-packet-rejected"}, {"scenario": self.name, "pn": pn})
-        self.obs.largest[("c>s", "app")] = pn
+        for pnl, delta in ((4, self.rng.randrange(1, 200)), (1, 128), (2, 32768), (3, 1 << 23)):
+            s.drain(self.now)
+            pn = self.obs.largest[("c>s", "app")] + 1 + delta
+            first = 0x40 | (phase << 2) | (pnl - 1)
+            hdr = bytes([first]) + s.conn.host_cid + (pn % (1 << (8 * pnl))).to_bytes(pnl, "big")
+            pkt = R.protect(keys, hdr, b"\x01" + bytes(self.rng.randrange(3, 40)), pn)
+            before = s.n_received()
+            s.conn.receive_datagram(pkt, CLIENT_ADDR, now=self.now)
+            self.stats["reference_protected_fed"] += 1
+            if s.n_received() != before + 1 or sp.largest_received_packet != pn:
+                self.violation("a packet protected by the independent implementation (pn %d = expected + %d, %d-byte encoding) is not accepted"
+                               % (pn, delta, pnl), {"site": "receive_datagram", "rule": "reference-packet-rejected"},
+                               {"scenario": self.name, "pn": pn, "pn_len": pnl, "delta": delta})
+                return
+            self.obs.largest[("c>s", "app")] = pn
 
 
 def run_connection(ctx, known, cov):
